@@ -324,6 +324,10 @@ Definition new_redis (c : rconfig) : winst :=                          (* config
    kind of client, address, password, TLS *)
 Definition dial_config (w : winst) : rtype * string * string * bool := (w_type w, w_addr w, w_pass w, w_tls w).
 
+(* blockingnode.go CreateBlockingNode: a NEW client (dedicated connection) for r's type, address, password and --
+   since 10db6ba -- TLS setting *)
+Definition blocking_config (w : winst) : rtype * string * string * bool := (w_type w, w_addr w, w_pass w, w_tls w).
+
 (* ---- blockingnode.go: CreateBlockingNode / Close.  Clients are identified by a serial number. ---- *)
 Inductive bop := BGet (addr : string) | BCreate | BClose (id : nat).
 Record bst := mkbst { bs_next : nat;
